@@ -376,7 +376,15 @@ class VariantMonitor(Monitor):
                             f'stack + bet {total}')
         else:
             ctx.counters['pot_limit_offers'] += 1
-            collected = sum(s.starting_stacks) - sum(s.stacks) - sum(s.bets)
+            if ctx.cfg.get('inf_stack'):
+                # (inf - inf is not a number: count the chips from the log)
+                from vflib.ref import payout as _p
+                collected = sum(_p.contributions_from_log(s)[0]) \
+                    - sum(s.bets)
+                ctx.counters['offers_with_an_infinite_stack'] += 1
+            else:
+                collected = sum(s.starting_stacks) - sum(s.stacks) \
+                    - sum(s.bets)
             if ctx.cfg['rake'] and collected:
                 ctx.counters['pot_limit_offers_raked_pot'] += 1
             pot = collected + sum(s.bets)
@@ -481,6 +489,18 @@ def gen_kwargs(rng):
     )
 
 
+def cfg_filter(cfg, rng):
+    if rng.random() < 0.06:
+        # the documented "stack unknown" value: one seat with math.inf
+        import math
+        st = list(cfg['stacks']) if isinstance(
+            cfg['stacks'], (list, tuple)) else [cfg['stacks']] * cfg['n']
+        st[rng.randrange(cfg['n'])] = math.inf
+        cfg['stacks'] = st
+        cfg['inf_stack'] = True
+    return cfg
+
+
 def pol_tweak(pol, cfg, rng):
     pol['policy'] = rng.choice(['aggressive', 'aggressive', 'passive',
                                 'uniform', 'allin'])
@@ -494,7 +514,7 @@ def run_shard(seed, shard, of, tier, deadline):
     res = hist.run_history_shard(
         PROP, seed, shard, of, tier, deadline, cases=CASES,
         gen_kwargs=gen_kwargs, make_monitors=make_monitors,
-        nontrivial=nontrivial, pol_tweak=pol_tweak)
+        nontrivial=nontrivial, pol_tweak=pol_tweak, cfg_filter=cfg_filter)
     if shard == 0 or tier == 'thorough':
         check_static(res)
     return res
